@@ -205,7 +205,10 @@ Step(t) == StepRaw(t) /\ (status' = "run" \/ Len(toks) >= MinToks)
 
 (* ---------------- query mode: url.Values ---------------- *)
 
-QSegs == {"s", "n", "e", "o", "w", "wa", "as", "ao", "ms", "y", "fa", "zzz", ""}
+\* (a key segment may be given in the proto spelling, snake_case: the degenerate spellings - an underscore with no word
+\* before or after it - are keys like any other)
+QSegs == {"s", "n", "e", "o", "w", "wa", "as", "ao", "ms", "y", "fa", "zzz", "",
+          "_", "__", "s_", "_s", "a_s", "a__s", "S", "zz_"}
 QVals == {"x", "1", "RED", "", "{}", "{\"s\":\"x\"}", "{"}
 
 QSeg(s) == /\ status = "run" /\ TMode = "query" /\ qvals = <<>> /\ Len(qpath) < MaxToks
